@@ -120,12 +120,20 @@ def test_ok(x):
     return f"exists(self.job.result.tests, lambda t: t['name'].name == {x}['name'].name and {ACCEPT})"
 
 
+def _accumulator(fn):
+    import ast
+    names = {n.target.id for n in ast.walk(fn) if isinstance(n, ast.AugAssign) and isinstance(n.target, ast.Name)}
+    return names.pop() if len(names) == 1 else None
+
+
 ALL_RESULTS_OK = Contract(
     target=f"{RUNNER}::TestRunner.all_results_ok",
     params={"self": Ref("TestRunner")},
     requires=["self.job is not None and self.job.result is not None",
               "forall(self.job.result.tests, lambda t: t is not None and t['name'] is not None and t['status'] in DEFINITE)"],
     extra_names=dict(RUNNER_NAMES, STATUSES_MAPPING=STATUSES_MAPPING),
+    # the accumulator of the loop (`shared_status` today) is found by its role: the one name the loop body aug-assigns
+    aliases={"shared_status": _accumulator},
     loops={0: {"invariants": ["shared_status", f"forall(range(0, _i), lambda j: {test_ok('self.job.result.tests[j]')})"],
                "kinds": {"shared_status": BOOL}}},
     ensures=[
